@@ -70,4 +70,6 @@ def panel (f : Feat) : Panel :=
     prog := prog f,
     ctrl := .uc (Uc.por WIDTH HEIGHT 4 9 false) }
 
+attribute [driver_simp] W sendResolution init expandStep expandByte updateFrame prog
+
 end EpdVerif.Drivers.Epd7in5
